@@ -32,7 +32,8 @@ func init() {
 type c08Scenario struct {
 	Kind    string     `json:"kind"` // queue-ll, stack-ll, queue-slice, stack-slice
 	Threads [][]string `json:"threads"`
-	Warm    int        `json:"warm_up_backlog,omitempty"` // > 0: two sequential backlogs of this size go through the wrapper first
+	Warm    int        `json:"warm_up_backlog,omitempty"`          // > 0: two sequential backlogs of this size go through the wrapper first
+	Trim    []int      `json:"node_pool_trimmed_before,omitempty"` // [m, n]: m values go through the wrapper, then the owner trims the wrapped list's node pool to n
 
 	h          *Hist
 	extra      []Violation
@@ -48,6 +49,11 @@ func genC08(t *simrt.Tape, tier string) Scenario {
 	if strings.HasSuffix(sc.Kind, "-ll") && t.Bool(1, 12) {
 		// the wrapped LinkedListQueue has been used heavily before the concurrent phase starts
 		sc.Warm = 130 + t.Choose(60)
+	}
+	if strings.HasSuffix(sc.Kind, "-ll") && sc.Warm == 0 && t.Bool(1, 6) {
+		// the owner of the wrapped LinkedListQueue has trimmed its node pool (as BufferedChannelQueue does
+		// with its own list) before the concurrent phase
+		sc.Trim = []int{4 + t.Choose(10), 1 + t.Choose(3)}
 	}
 	maxT, maxOps := 4, 4
 	if tier == "thorough" {
@@ -145,11 +151,14 @@ func (sc *c08Scenario) Run(s *simrt.Sim) {
 	sc.h = h
 	var queue fpgo.Queue[int]
 	var stack fpgo.Stack[int]
+	var ll *fpgo.LinkedListQueue[int]
 	switch sc.Kind {
 	case "queue-ll":
-		queue = fpgo.NewLinkedListQueue[int]()
+		ll = fpgo.NewLinkedListQueue[int]()
+		queue = ll
 	case "stack-ll":
-		stack = fpgo.NewLinkedListQueue[int]()
+		ll = fpgo.NewLinkedListQueue[int]()
+		stack = ll
 	case "queue-slice":
 		queue = &sliceQueue{s: s}
 	case "stack-slice":
@@ -178,6 +187,24 @@ func (sc *c08Scenario) Run(s *simrt.Sim) {
 			return h.Do(name, "Pop", nil, func() (interface{}, error) { return cs.Pop() })
 		}
 		return nil
+	}
+	if len(sc.Trim) == 2 && ll != nil {
+		for i := 0; i < sc.Trim[0]; i++ {
+			if cq != nil {
+				cq.Offer(-5000 - i)
+			} else {
+				cs.Push(-5000 - i)
+			}
+		}
+		for i := 0; i < sc.Trim[0]; i++ {
+			if cq != nil {
+				cq.Poll()
+			} else {
+				cs.Pop()
+			}
+		}
+		ll.KeepNodePoolCount(sc.Trim[1])
+		sc.probes["node-pool-trimmed"]++
 	}
 	for round := 0; round < 2 && sc.Warm > 0; round++ {
 		// (not part of the recorded history: the structure is empty again when the history starts)
